@@ -344,6 +344,8 @@ pub async fn run() {
         let mut hc = server_cfg.http.clone();
         hc.enabled = true;
         hc.address = "127.0.0.1:0".to_string();
+        // the generators send a multi-megabyte message now and then (JSON + base64 makes it larger still)
+        hc.max_request_size = iggy::utils::byte_size::IggyByteSize::from(64_000_000u64);
         hc.jwt.access_token_expiry =
             iggy::utils::expiry::IggyExpiry::ExpireDuration(IggyDuration::from_str("1000000h").unwrap());
         Some(server::http::http_server::start(hc, system.clone()).await.to_string())
